@@ -16,7 +16,8 @@ REPO = os.environ.get("VERIF_REPO", "/repo")
 LEAN = os.path.join(ROOT, "lean")
 BUILD = os.path.join(ROOT, ".build")
 WORK = os.path.join(ROOT, ".work")
-EVID = os.path.join(ROOT, "evidence")
+# evidence of runs against a scratch copy of the repository (VERIF_REPO set) must never overwrite the real evidence
+EVID = os.path.join(ROOT, "evidence") if REPO == "/repo" else os.path.join(ROOT, ".work", "evidence_scratch")
 REPLAYS = os.path.join(ROOT, "replays")
 CORPUS = os.path.join(ROOT, "corpus")
 KNOWN = os.path.join(ROOT, "known_findings.json")
